@@ -3,13 +3,15 @@ import SnaxVerif.Lemmas.StridePattern
 import SnaxVerif.Lemmas.PackBits
 import SnaxVerif.Lemmas.AffineTransform
 import SnaxVerif.Lemmas.AttrSyntax
+import SnaxVerif.Lemmas.AccessCanon
 /-!
 # C19 — canonical forms and alternative representations denote the same object
 
 Statements and theorems only; helper lemmas live in `Lemmas/`.
 
 Parts: (0) affine-expression canonicaliser, (1) `StridePattern.canonicalize`, (2) `pack_bitlist`,
-(3) `AffineTransform` (matrix form), (4) attribute print -> parse round trips.
+(3) `AffineTransform` (matrix form), (4) attribute print -> parse round trips,
+(5) `AccessPattern.canonicalize` / `inner_dims`.
 -/
 namespace SnaxVerif.C19
 open SnaxVerif AExpr
@@ -375,5 +377,149 @@ example : Syntax.printCfg ⟨[⟨.reader, [.normal, .reuse], [8, 4], [.channelMa
 example : Syntax.printSP ⟨[2, -3], [0], []⟩
     = [.lt, .ident "ub", .eq, .lsq, .nat 2, .comma, .minus, .nat 3, .rsq, .comma, .ident "ts", .eq, .lsq, .nat 0,
        .rsq, .comma, .ident "ss", .eq, .lsq, .rsq, .gt] := by decide
+
+/-! ## (5) `AccessPattern.canonicalize` / `inner_dims` -/
+
+open AP AT in
+/-- On every point of the iteration box (static dims `0 <= x_i < b_i`, dynamic dims `0 <= x_i`, any
+rank, any mixture of `None`, zero, unit, negative and larger bounds) the canonical pattern, applied to
+the point with the removed coordinates deleted, is again inside its box and evaluates identically. -/
+theorem accessCanon_eval (p : Pattern) (h : p.valid) (x : List Int) (hx : InBox p.bounds x) :
+    InBox p.canonicalize.bounds (select (p.bounds.map keep) x) ∧
+    p.canonicalize.t.eval (select (p.bounds.map keep) x) = p.t.eval x := by
+  obtain ⟨hn, hrows, _⟩ := h
+  have hxl := InBox.length _ _ hx
+  refine ⟨inBox_select _ _ hx, ?_⟩
+  unfold Transform.eval Pattern.canonicalize
+  simp only [select_length p.bounds x hxl, ne_eq, not_true_eq_false, if_false]
+  rw [if_neg (by rw [hxl, hn]; exact fun h => h rfl)]
+  congr 2
+  unfold matVec
+  rw [List.map_map]
+  apply List.map_congr_left
+  intro r hr
+  exact dot_select p.bounds r x hx (by rw [hrows r hr, hn])
+
+open AP AT in
+/-- `type(self)(bounds, pattern)` at the end of `canonicalize` never raises, and the result keeps the
+class invariant. -/
+theorem accessCanon_valid (p : Pattern) (h : p.valid) (hc : construct p.cls p.bounds p.t = .ok p) :
+    p.canonicalize.valid ∧
+    construct p.cls p.canonicalize.bounds p.canonicalize.t = .ok p.canonicalize := by
+  obtain ⟨hn, hrows, hb⟩ := h
+  refine ⟨⟨rfl, ?_, by simpa [Pattern.canonicalize] using hb⟩, ?_⟩
+  · intro r hr
+    simp only [Pattern.canonicalize, List.mem_map] at hr ⊢
+    obtain ⟨r0, hr0, rfl⟩ := hr
+    exact select_length p.bounds r0 (by rw [hrows r0 hr0, hn])
+  · unfold construct at hc ⊢
+    by_cases hs : p.cls = .schedule
+    · simp only [hs, if_true] at hc ⊢
+      cases hsc : schedCheck p.bounds with
+      | error e => simp [hsc] at hc
+      | ok u =>
+        have := AP.schedCheck_filter p.bounds hsc
+        simp only [Pattern.canonicalize, this, ne_eq, not_true_eq_false, if_false, hs]
+    · simp only [hs, if_false, Pattern.canonicalize, ne_eq, not_true_eq_false]
+
+open AP AT in
+theorem accessCanon_idem (p : Pattern) (h : p.valid) : p.canonicalize.canonicalize = p.canonicalize := by
+  obtain ⟨hn, hrows, _⟩ := h
+  have hf : (p.bounds.filter keep).filter keep = p.bounds.filter keep := by
+    rw [List.filter_filter]; simp
+  unfold Pattern.canonicalize
+  simp only [hf, List.map_map]
+  congr 2
+  apply List.map_congr_left
+  intro r hr
+  simp only [Function.comp]
+  exact select_all_true (p.bounds.filter keep) _ (keep_filter p.bounds)
+    (select_length p.bounds r (by rw [hrows r hr, hn]))
+
+/-- The full statement "the canonical pattern denotes the same accesses": every point of the original
+box maps to a point of the canonical box with the same value AND every point of the canonical box comes
+from a point of the original box. False on the unchanged tree (finding DC19a). -/
+def accessCanon_statement : Prop :=
+  ∀ p : AP.Pattern, p.valid →
+    (∀ x, AP.InBox p.bounds x → AP.InBox p.canonicalize.bounds (AP.select (p.bounds.map AP.keep) x) ∧
+      p.canonicalize.t.eval (AP.select (p.bounds.map AP.keep) x) = p.t.eval x) ∧
+    (∀ y, AP.InBox p.canonicalize.bounds y → ∃ x, AP.InBox p.bounds x ∧ AP.select (p.bounds.map AP.keep) x = y)
+
+open AP AT in
+/-- clause `positive_clause`: every static bound is at least 1 (what `SchedulePattern` enforces). Then
+the two boxes are in bijection (`select` / `embed`) and the values agree. -/
+theorem accessCanon_onto_partial (p : Pattern) (h : p.valid) (positive_clause : DroppedPositive p.bounds)
+    (y : List Int) (hy : InBox p.canonicalize.bounds y) :
+    InBox p.bounds (embed (p.bounds.map keep) y) ∧
+    select (p.bounds.map keep) (embed (p.bounds.map keep) y) = y ∧
+    p.t.eval (embed (p.bounds.map keep) y) = p.canonicalize.t.eval y := by
+  have hyl := InBox.length _ _ hy
+  have hin := inBox_embed p.bounds y positive_clause hy
+  have hsel := select_embed p.bounds y hyl
+  refine ⟨hin, hsel, ?_⟩
+  have := (accessCanon_eval p h _ hin).2
+  rw [hsel] at this
+  exact this.symm
+
+/-- DC19a: a dimension with static bound 0 is removed like a unit dimension; the empty iteration space
+`(0, 4)` becomes the 4-point space `(4,)`. -/
+theorem accessCanon_zero_bound_fails : ¬ accessCanon_statement := by
+  intro h
+  have hv : (AP.Pattern.mk .access [some 0, some 4] ⟨2, [[1, 2]], [0]⟩).valid := by
+    refine ⟨rfl, ?_, rfl⟩
+    intro r hr; simp at hr; subst hr; rfl
+  obtain ⟨x, hx, _⟩ := (h _ hv).2 [0] (by simp [AP.Pattern.canonicalize, AP.keep, AP.InBox])
+  match x, hx with
+  | x0 :: _ :: [], hx =>
+    simp only [AP.InBox] at hx
+    have := hx.2.1 0 rfl
+    omega
+
+open AP AT in
+/-- `inner_dims(dim)` for `dim >= 1`: the result keeps the last `min dim rank` bounds, keeps the class
+invariant, and evaluates like the original with all outer indices set to 0 — including the ValueError
+for an index vector of the wrong length. -/
+theorem innerDims_eval (p : Pattern) (h : p.valid) (dim : Int) (hd : 0 < dim) :
+    ∃ q, p.innerDims dim = .ok q ∧ q.cls = p.cls ∧
+      q.bounds = p.bounds.drop (p.bounds.length - dim.toNat) ∧ q.valid ∧
+      ∀ y, q.t.eval y = p.t.eval (List.replicate (p.bounds.length - dim.toNat) 0 ++ y) := by
+  obtain ⟨hn, hrows, hb⟩ := h
+  unfold Pattern.innerDims
+  rw [if_neg (by omega)]
+  refine ⟨_, rfl, rfl, rfl, ⟨?_, ?_, by simp [hb]⟩, ?_⟩
+  · simp only [List.length_drop]; omega
+  · intro r hr
+    simp only [List.mem_map] at hr
+    obtain ⟨r0, hr0, rfl⟩ := hr
+    simp only [List.length_drop, hrows r0 hr0]
+  · intro y
+    unfold Transform.eval
+    simp only [List.length_append, List.length_replicate]
+    by_cases hy : y.length = p.t.nd - (p.t.nd - dim.toNat)
+    · have hy' : p.bounds.length - dim.toNat + y.length = p.t.nd := by omega
+      rw [if_neg (fun hc => hc hy), if_neg (fun hc => hc hy')]
+      congr 2
+      unfold matVec
+      rw [List.map_map]
+      apply List.map_congr_left
+      intro r _
+      simp only [Function.comp]
+      rw [hn, dot_drop]
+    · have hy' : ¬ (p.bounds.length - dim.toNat + y.length = p.t.nd) := by omega
+      rw [if_pos hy, if_pos hy']
+
+open AP in
+theorem innerDims_error (p : Pattern) (dim : Int) (hd : dim ≤ 0) : p.innerDims dim = .error .valueError := by
+  unfold Pattern.innerDims; rw [if_pos hd]
+
+/-- Non-vacuity: the seeded example `(None, 1, 4)`, a schedule, and `inner_dims`. -/
+example : (AP.Pattern.mk .template [none, some 1, some 4] ⟨3, [[16, 7, 1], [1, 0, 0]], [3, 0]⟩).canonicalize
+    = AP.Pattern.mk .template [none, some 4] ⟨2, [[16, 1], [1, 0]], [3, 0]⟩ := by decide
+example : AP.InBox [none, some 1, some 4] [9, 0, 3] := by simp [AP.InBox]
+example : (AP.Pattern.mk .schedule [some 2, some 1, some 8] ⟨3, [[1, 2, 3]], [5]⟩).innerDims 2
+    = .ok (AP.Pattern.mk .schedule [some 1, some 8] ⟨2, [[2, 3]], [5]⟩) := by rfl
+example : AP.construct .schedule [some 2, none] ⟨2, [], []⟩ = .error .typeError ∧
+    AP.construct .schedule [some 0, none] ⟨2, [], []⟩ = .error .valueError ∧
+    AP.construct .access [some 0] ⟨2, [], []⟩ = .error .valueError := ⟨rfl, rfl, rfl⟩
 
 end SnaxVerif.C19
